@@ -215,6 +215,16 @@ def menu(systag):
         ops.append(("func_proj:" + k, lambda P, k=k: (P[k].func_calc_proj_eq_constraint()(P[k].to_var()), P[k].func_calc_proj_ineq_constraint_with_var()(P[k].to_var()))))
         ops.append(("gradient:" + k, lambda P, k=k: P[k].calc_gradient(1)))
         ops.append(("generate_from_var:" + k, lambda P, k=k: P[k].generate_from_var(P[k].to_var())))
+    # --- deriving a projection function for ANOTHER order of the constraint projections must leave the operand as it is
+    for k in ("su", "pu", "gu", "mu"):
+        ops.append(("func_proj_physical_other_order:" + k, lambda P, k=k: P[k].func_calc_proj_physical_with_var(
+            mode_proj_order="ineq_eq" if P[k].mode_proj_order == "eq_ineq" else "eq_ineq")(P[k].to_var())))
+    # --- sampling with explicit integer seeds (0 is a seed like any other): a function of the seed only
+    def sample(P):
+        from quara.objects.multinomial_distribution import MultinomialDistribution
+        md = MultinomialDistribution(np.array([0.2, 0.3, 0.5]))
+        return [md.execute_random_sampling(20, 2, sd) for sd in (0, 5, 0)]
+    ops.append(("sampling:int-seeds", sample))
     # --- compose / tensor
     ops.append(("compose:g.s", lambda P: comp(P["g"], P["s"])))
     ops.append(("compose:p.s", lambda P: comp(P["p"], P["s2"])))
@@ -580,6 +590,41 @@ def ex_immut(p, seed):
                                  "set_zero() on an object generated from var zeroed the caller's var array")
                     if not np.array_equal(np.asarray(pool[k].to_stacked_vector(), dtype=np.float64), src_snap):
                         out.fail("mutator:set_zero:changes-source-object:%s" % type(obj).__name__, "set_zero() on a derived object changed its source")
+    # objects of equal value behave equally, however they were made: the zero / origin objects an object hands out against the same
+    # values given to the constructor (elements sharing one array inside the object show up here)
+    if systag in ("Q1", "Q3"):
+        pool = build_pool(systag, seed)
+        for k in ("s", "p", "g", "m", "m3"):
+            base_obj = pool[k]
+            for maker in ("generate_zero_obj", "generate_origin_obj"):
+                okz, z = A.call(getattr(base_obj, maker))
+                if not okz:
+                    continue
+                if hasattr(z, "hss"):
+                    cont, extra = [np.array(h, dtype=np.float64) for h in z.hss], {"shape": tuple(z.shape)}
+                elif hasattr(z, "vecs"):
+                    cont, extra = [np.array(v, dtype=np.float64) for v in z.vecs], {}
+                else:
+                    cont, extra = np.array(z.hs if hasattr(z, "hs") else z.vec, dtype=np.float64), {}
+                okc, twin = A.call(lambda: type(base_obj)(base_obj.composite_system, cont, is_physicality_required=False,
+                                                         on_para_eq_constraint=base_obj.on_para_eq_constraint, **extra))
+                if not okc:
+                    raise HarnessError("cannot rebuild %s of %s through the constructor: %s" % (maker, k, A.fmt_exc(twin)))
+                for meth in ("calc_proj_eq_constraint", "calc_proj_ineq_constraint", "to_var"):
+                    ok1, r1 = A.call(getattr(z, meth))
+                    ok2, r2 = A.call(getattr(twin, meth))
+                    out.ops += 2
+                    out.count("equal_value_twins_compared")
+                    def val(ok, r):
+                        if not ok:
+                            return "EXC:" + type(r).__name__
+                        return np.array(r.to_stacked_vector() if hasattr(r, "to_stacked_vector") else r, dtype=np.float64).ravel()
+                    f1, f2 = val(ok1, r1), val(ok2, r2)
+                    differ = (f1 != f2) if isinstance(f1, str) or isinstance(f2, str) else (f1.shape != f2.shape or np.abs(f1 - f2).max() > 1e-12)
+                    if differ:
+                        out.fail("equal-values-behave-differently:%s:%s:%s" % (type(base_obj).__name__, maker, meth),
+                                 "%s: %s() of the object from %s() differs from the same call on an object with the same values built by the constructor" % (
+                                     systag, meth, maker))
     # the source list handed to MatrixBasis is not aliased
     src = [np.array(R.dense(x)) for x in c.comp_basis()]
     mbs = mb.MatrixBasis(src)
